@@ -532,9 +532,16 @@ class RootCommand(Command):
 
     def stop_core(self, core: CoreProxy | None) -> None:
         logger.info("Stopping Mopidy core")
-        if core is not None:
-            call = ProxyCall(attr_path=("_teardown",), args=(), kwargs={})
-            core.actor_ref.ask(call, block=True)
+        # If we were interrupted before start_core() returned, the core may
+        # still be running (and may already have consumed the state file).
+        core_refs = (
+            [core.actor_ref]
+            if core is not None
+            else pykka.ActorRegistry.get_by_class(Core)
+        )
+        call = ProxyCall(attr_path=("_teardown",), args=(), kwargs={})
+        for core_ref in core_refs:
+            core_ref.ask(call, block=True)
         process.stop_actors_by_class(Core)
 
     def stop_backends(self, backend_classes: list[type[BackendActor]]) -> None:
